@@ -1,7 +1,7 @@
-\* C20 thorough: expression trees at QuickSizes, line breaks everywhere
+\* C20 thorough: literal / postfix / lambda expression trees at QuickSizes, line break wherever legal
 SPECIFICATION LSpec
 CONSTANTS
-  Foci = {"lit", "postfix", "lambda", "prec"}
+  Foci = {"lit", "postfix", "lambda"}
   Sizes <- QuickSizes
   LFoci = {"xasg"}
   Bases = {"nl"}
